@@ -5,7 +5,7 @@ from harness import core
 
 ID = "C12"
 MODNAME = "c12"
-RULE = ("(a) point cases: one random domain [a,b] and range [r0,r1] (magnitudes 1e-6..1e9, both orientations, spans >= 1e-6 of "
+RULE = ("(a) point cases: one random domain [a,b] and range [r0,r1] (magnitudes 1e-6..1e9, both orientations, spans >= 1e-6 of (plus a narrow family: relative width down to a few ulps, queries in and near the interval) "
         "the magnitude, plus a few degenerate ones) with 8 query points each (the end points, inside, far outside), scale and "
         "invert, clamped and unclamped; (b) history cases: 6..28 random operations (new/domain/range/clamp/nice/copy, caller-shared "
         "range lists) over a pool of up to four scales and their copies, every observable (domain, range, clamp, s(x), s.invert(y)) "
@@ -220,6 +220,25 @@ def gen(rng, tier):
         xs = _queries(rng, a, b) if a != b else [a, a + 1.0, a - 1.0, 0.0, 1.0, -1.0, a * 2, 5.0]
         ys = _queries(rng, r0, r1) if r0 != r1 else [r0, r0 + 1.0, r0 - 1.0, 0.0, 1.0, -1.0, r0 * 2, 5.0]
         yield _pt_case(a, b, r0, r1, xs, ys, kind)
+    # narrow domains / ranges far from the origin (relative width down to a few ulps): a != b is all
+    # the property asks for; queries stay in and near the interval so that x - a is exact in doubles
+    import math
+    for _ in range(n_pt // 5):
+        def narrow():
+            a = _mag(rng, -3, 9)
+            rel = 10 ** rng.uniform(-15.5, -6)
+            b = a * (1 + rng.choice([-1, 1]) * rel)
+            if b == a:
+                b = math.nextafter(a, math.inf if rng.random() < 0.5 else -math.inf)
+            return a, b
+        a, b = narrow()
+        r0, r1 = narrow() if rng.random() < 0.4 else _pair(rng)
+
+        def near(p, q):
+            sp = q - p
+            return [float(v) for v in (p, q, p + sp * rng.random(), p + sp * rng.random(), p + sp / 2,
+                                       p - sp * rng.random(), q + sp * 2 * rng.random(), p + sp * 0.25)]
+        yield _pt_case(a, b, r0, r1, near(a, b), near(r0, r1), "pt-narrow")
     yield _hist_case([[0], [2, 0, 0.3, 9.7], [1, 0.0, 100.0], [3, 0, 1], [6, 0], [5, 1, 10], [5, 0, 10]],
                      [0.0, 10.0, 0.3, 9.7], [0.0, 100.0, 50.0], "hist-A6")
     for _ in range(n_h):
